@@ -4,7 +4,8 @@ import itertools
 from ..sched import check, configs as C
 from .c01 import LEVEL, TECHNIQUE, ASSUMPTIONS  # noqa: F401  pylint: disable=unused-import
 
-RULE = ('every schedule with at most `preemption_bound` preemptions of Scheduler.schedule() from an empty Env, for each listed '
+RULE = ('[outcomes also: update replacing the own entry by a non-dictionary, update whose merge fails half-way; a DepGraph used as a node; a second schedule() on the same backend with another graph; the same graph objects handed to a second Scheduler] ' +
+        'every schedule with at most `preemption_bound` preemptions of Scheduler.schedule() from an empty Env, for each listed '
         'configuration (graph with hard/soft edges x assignment of outcomes {ok, raise, FAILED, None, not-a-pair, bad status, '
         'bad update, 3-tuple} x worker count); on every execution the final status map and the per-task execution counters must '
         'equal a reference computed from the graph and the outcomes alone (configurations[].distinct_final_status_maps must be 1); '
